@@ -122,3 +122,29 @@ def rand_tx(rng, kind=None, chain=None, spellings=None, data_len=None, al_shape=
         exp["accessList"] = []
     rng.shuffle(fields)
     return render(fields), exp
+
+
+def field_mixes(rng):
+    """every subset of {gasPrice, maxPriorityFeePerGas, maxFeePerGas, accessList} x chainId present/absent: which kind a
+    document is (fee-market field -> EIP-1559, else access list -> EIP-2930, else legacy) and which subsets are refused"""
+    import itertools, json
+    out = []
+    opt = ["gasPrice", "maxPriorityFeePerGas", "maxFeePerGas", "accessList"]
+    for r in range(0, 5):
+        for sub in itertools.combinations(opt, r):
+            for with_chain in (True, False):
+                for _ in range(2):
+                    obj = {"nonce": rng.randrange(1000), "gas": rng.choice([21000, "0x5208", "100000"]), "value": str(rng.randrange(10 ** 18)), "data": rand_data(rng, rng.choice([0, 4]))}
+                    if rng.random() < 0.8:
+                        obj["to"] = rand_addr(rng)
+                    if with_chain:
+                        obj["chainId"] = rng.choice([1, 5, 137, "0x1"])
+                    for k in sub:
+                        if k == "accessList":
+                            obj[k] = rng.choice([[], [{"address": rand_addr(rng), "storageKeys": ["0x" + "%064x" % rng.getrandbits(256)]}]])
+                        else:
+                            obj[k] = rng.choice([rng.randrange(1, 10 ** 10), hex(rng.randrange(1, 10 ** 10)), str(rng.randrange(1, 10 ** 10))])
+                    items = list(obj.items())
+                    rng.shuffle(items)
+                    out.append((json.dumps(dict(items)), "+".join(sub) or "none", with_chain))
+    return out
